@@ -682,7 +682,7 @@ func runC09(h *Harness) {
 					s.InsertRevokedCert(&crlreader.CRLEntry{Issuer: issuerRDN, RevokedCertificate: &pkix.RevokedCertificate{SerialNumber: e.Serial, RevocationTime: e.Date}})
 				}
 				if fault == "manifest-and-tables-damaged" {
-					for i := 0; i < 3000; i++ {
+					for i := 0; i < 250; i++ { // (a few small tables; more would run into the database's own time-based write throttling)
 						s.InsertRevokedCert(&crlreader.CRLEntry{Issuer: issuerRDN, RevokedCertificate: &pkix.RevokedCertificate{SerialNumber: big.NewInt(int64(0x7000000 + i)), RevocationTime: epoch}})
 					}
 				}
@@ -713,7 +713,9 @@ func runC09(h *Harness) {
 						os.WriteFile(p, b[:len(b)/2], 0600)
 						cut++
 					case strings.HasPrefix(e.Name(), "MANIFEST-") && len(b) > 8:
-						for i := len(b) / 3; i < len(b)/3+6 && i < len(b); i++ {
+						// (every record of the manifest: what exactly the manifest holds depends on when the database's own
+						// background compactions ran, and the outcome of the cell must not)
+						for i := 4; i < len(b); i++ {
 							b[i] ^= 0x5a
 						}
 						os.WriteFile(p, b, 0600)
